@@ -67,6 +67,7 @@ func propC08(c *Ctx) {
 			c.Bad(f2, FuncName(fn)+"/undecided", c.P.Pos(fn.Pos()), es)
 		}
 		// F3 + lookup-or-create: along every path, the reassembler handed to process()
+		c.Rule("F3", "K9 path table", "old reassemblers are never combined with newer fragments", 2)
 		n := 0
 		for _, p := range ps {
 			for _, e := range p.Effects {
@@ -100,7 +101,6 @@ func propC08(c *Ctx) {
 				}
 			}
 		}
-		c.Rule("F3", "K9 path table", "old reassemblers are never combined with newer fragments", 2)
 		if n == 0 {
 			c.Bad("F3", "(*fragmentation.Fragmentation).Process/no-process-call", c.P.Pos(fn.Pos()), "Process no longer calls reassembler.process")
 		}
@@ -183,6 +183,13 @@ func propC08(c *Ctx) {
 			{Kind: "call", Target: "builtin:append", Args: sub(m, "$0.holes@u", "[fragmentation.hole{first: {HOLE}.first@u, last: ($1 - 1), deleted: false}]"), Guards: append(append([]string{}, overlap...), sub(m, "({HOLE}.first@u < $1)")...), Exact: true, N: 1, Why: "left remainder [hole.first, first-1] kept when the fragment starts inside the hole"},
 			{Kind: "call", Target: "builtin:append", Args: sub(m, "$0.holes@u", "[fragmentation.hole{first: ($2 + 1), last: {HOLE}.last@u, deleted: false}]"), Guards: append(append([]string{}, overlap...), sub(m, "($2 < {HOLE}.last@u)", "$3")...), Exact: true, N: 1, Why: "right remainder [last+1, hole.last] kept when the fragment ends inside the hole and more fragments follow"},
 		})
+	}
+
+	f8 := c.Rule("F8", "K5 alias freshness", "hole records are read and written in the live hole list", 2)
+	for _, n := range []string{fr + "updateHoles", fr + "process"} {
+		if fn := c.Fn(f8, n); fn != nil {
+			c.NoStaleSliceAlias(f8, fn, "fragmentation.reassembler", "holes")
+		}
 	}
 
 	f7 := c.Rule("F7", "K2 per-iteration must-follow + site table", "merge in offset order, no fragment skipped, overlap trimmed exactly", 5)
